@@ -295,15 +295,9 @@ func runC18(c *an.Ctx) {
 	c.Check(tagOK && nTags >= 2, "codec|varuint-tags", "NextVarUint dispatches on the tags 0xFD/0xFE/0xFF", "-", "tags found: "+nvTags)
 	// (5) byteXReader
 	if bx := mustFunc(c, "common/serialization.byteXReader"); bx != nil {
-		g := &an.Guard{Name: "x < 2MiB", FailValue: an.AFalse, MatchValue: func(v ssa.Value) bool {
-			b, ok := v.(*ssa.BinOp)
-			if !ok || b.Op != token.LSS {
-				return false
-			}
-			k, isK := b.Y.(*ssa.Const)
-			return isK && k.Value != nil && k.Value.String() == "2097152" && an.AccessPath(b.X) == bx.Params[1].Name()
-		}}
-		v := an.Guarded(c.P, bx, []*an.Guard{g}, func(in ssa.Instruction) bool { _, ok := in.(*ssa.MakeSlice); return ok }, false)
+		// the guard fails when "x >= 2MiB" holds (x is byteXReader's size parameter, whatever it is called)
+		g := relGuards("x < 2MiB", token.GEQ, func(x ssa.Value) bool { return an.AccessPath(x) == bx.Params[1].Name() }, isConstVal("2097152"))
+		v := an.Guarded(c.P, bx, g, func(in ssa.Instruction) bool { _, ok := in.(*ssa.MakeSlice); return ok }, false)
 		c.Check(v.Holds && v.GuardSites == 1 && v.ActionSites >= 1, "alloc|byteXReader|bounded", "the io.Reader decoder allocates a length-prefixed buffer up front only below the 2 MiB bound (larger inputs are read incrementally)", c.P.Rel(bx.Pos()), v.Witness)
 	}
 }
